@@ -389,6 +389,19 @@ def case_templates(W, cfg):
         chg[0][0] = (chg[0][0][0], POSITIONS[(POSITIONS.index(chg[0][0][1]) + 1) % 5])
         variants.append(("changed-position", chg, outs, other))
         variants.append(("swapped-within", [a[::-1] for a in ins], outs, other))
+        # same flat sequence of name:position pairs, different structure: the arrow or a parenthesis moved
+        if len(ins) >= 2:
+            variants.append(("arrow-moved-left", ins[:-1], [ins[-1]] + list(outs), other))
+            variants.append(("two-inputs-merged", [list(ins[0]) + list(ins[1])] + list(ins[2:]), outs, other))
+            variants.append(("input-dropped", ins[1:], outs, other))
+        if len(outs) >= 2:
+            variants.append(("arrow-moved-right", list(ins) + [outs[0]], outs[1:], other))
+            variants.append(("two-outputs-merged", ins, [list(outs[0]) + list(outs[1])] + list(outs[2:]), other))
+        if len(ins[0]) >= 2:
+            variants.append(("input-split", [ins[0][:1], ins[0][1:]] + list(ins[1:]), outs, other))
+        if outs and len(outs[-1]) >= 2:
+            variants.append(("output-split", ins, list(outs[:-1]) + [outs[-1][:1], outs[-1][1:]], other))
+        variants.append(("input-duplicated", list(ins) + [ins[-1]], outs, other))
         for vname, vins, vouts, vnames in variants:
             if not all(len({vnames[n] for n, _ in a}) == len(a) for a in vins + vouts):
                 continue
